@@ -62,6 +62,7 @@ Record env := {
   adverbs : list str;                  (* is_adverb *)
   adverb_arity : str -> nat -> nat;    (* get_adverb_arity *)
   reserved : list str;                 (* reserved_fn_args *)
+  modname : option str;                (* KlongInterpreter._module while the text is parsed: read_sym qualifies names with it *)
   comment_guard : bool                 (* read_sys_comment's loop tests `a and …` *)
 }.
 
@@ -190,7 +191,14 @@ Fixpoint sym_span (s : str) (acc : str) : str * str :=
   | c :: r => if is_symbolic c then sym_span r (c :: acc) else (s, rev acc)
   | [] => ([], rev acc)
   end.
-Definition read_sym (s : str) : str * ast := let '(r, x) := sym_span s [] in (r, ASym x).
+(* reserved_fn_symbol_map.get(x) or KGSym(x if x.startswith('.') or module is None else f"{x}`{module}") *)
+Definition qualify (x : str) : str :=
+  if str_in x (reserved E) then x
+  else match modname E with
+       | None => x
+       | Some m => if starts1 x 46 then x else x ++ 96 :: m
+       end.
+Definition read_sym (s : str) : str * ast := let '(r, x) := sym_span s [] in (r, ASym (qualify x)).
 
 Definition read_op (s : str) : str * ast :=
   if starts2 s 92 126 || starts2 s 92 42 then (tl (tl s), AOp (firstn 2 s) 0)
